@@ -267,6 +267,7 @@ dgsitrf(superlu_options_t *options, SuperMatrix *A, int relax, int panel_size,
     /* Allocate storage common to the factor routines */
     *info = dLUMemInit(fact, work, lwork, m, n, Astore->nnz, panel_size,
 		       gamma, L, U, Glu, &iwork, &dwork);
+    SLU_VHOOK_MEM("M:InitReturn", Glu, "\"ret\":%lld,\"m\":%d,\"n\":%d,\"annz\":%lld,\"lwork\":%lld,\"fact\":%d", (long long) *info, m, n, (long long) Astore->nnz, (long long) lwork, (int) fact);
     if ( *info ) return;
 
     xsup    = Glu->xsup;
@@ -433,6 +434,7 @@ dgsitrf(superlu_options_t *options, SuperMatrix *A, int relax, int panel_size,
 		    iinfo++;
 		    marker[pivrow] = kcol;
 		}
+		SLU_VHOOK_MEM("C:Col", Glu, "\"kind\":%d,\"jcol\":%d,\"pivrow\":%d,\"usepr\":%d,\"iinfo\":%lld,\"nextl\":%lld,\"nextlu\":%lld,\"nextu\":%lld", 0, (int) icol, pivrow, usepr, (long long) iinfo, (long long) xlsub[xsup[supno[icol]]+1], (long long) xlusup[icol+1], (long long) xusub[icol+1]);
 
 	    }
 
@@ -560,6 +562,7 @@ dgsitrf(superlu_options_t *options, SuperMatrix *A, int relax, int panel_size,
 		    marker[m + pivrow] = jj;
 		    marker[2 * m + pivrow] = jj;
 		}
+		SLU_VHOOK_MEM("C:Col", Glu, "\"kind\":%d,\"jcol\":%d,\"pivrow\":%d,\"usepr\":%d,\"iinfo\":%lld,\"nextl\":%lld,\"nextlu\":%lld,\"nextu\":%lld", 1, (int) jj, pivrow, usepr, (long long) iinfo, (long long) xlsub[xsup[supno[jj]]+1], (long long) xlusup[jj+1], (long long) xusub[jj+1]);
 
 		/* Reset repfnz[] for this column */
 		resetrep_col (nseg, segrep, &repfnz[k]);
@@ -660,6 +663,7 @@ dgsitrf(superlu_options_t *options, SuperMatrix *A, int relax, int panel_size,
 
     ops[FACT] += ops[TRSV] + ops[GEMV];
     stat->expansions = --(Glu->num_expansions);
+    SLU_VHOOK_MEM("C:FactEnd", Glu, "\"info\":%lld,\"nnzL\":%lld,\"nnzU\":%lld", (long long) *info, (long long) nnzL, (long long) nnzU);
 
     if ( iperm_r_allocated ) SUPERLU_FREE (iperm_r);
     SUPERLU_FREE (iperm_c);
